@@ -412,6 +412,26 @@ class Interp(ExprMixin):
                 self.exec_block(st.orelse)
             return None
         it, target, keyed = self.normalize_iteration(it, st.target, st.body + st.orelse)
+        itc = it if isinstance(it, tuple) else None
+        if itc is not None and itc[0] == "call" and itc[1] in ("itertools.combinations", "combinations") and len(itc[2]) == 2 \
+                and itc[2][1] == K(2) and isinstance(target, (ast.Tuple, ast.List)) and len(target.elts) == 2:
+            # itertools.combinations(X, 2): the unordered pairs (X[i], X[k]), i < k - one spelling with the index loops
+            # `for i in range(len(X)): for k in range(i + 1, len(X))`
+            X = itc[2][0]
+            n = ("call", "len", (X,), ())
+            outer = self.new_loop("for", ("range", K(0), n), st)
+            names = [nm.id for nm in ast.walk(target) if isinstance(nm, ast.Name)]
+
+            def inner_body():
+                inner = self.new_loop("for", ("range", app("+", ("elem", outer), K(1)), n), st)
+                self._run_loop(st, inner, inner[3], None,
+                               pre_bind=lambda: (self.assign(target.elts[0], ("idx", X, ("elem", outer)), target),
+                                                 self.assign(target.elts[1], ("idx", X, ("elem", inner)), target)),
+                               extra_assigned=names)
+            self._run_loop(st, outer, outer[3], None, extra_assigned=names, body_fn=inner_body)
+            if st.orelse:
+                self.exec_block(st.orelse)
+            return None
         z = self.zip_as_range(self.ref_term(it) if not isinstance(it, tuple) else it)
         if z is not None:
             it = z[0]
@@ -490,7 +510,7 @@ class Interp(ExprMixin):
             v.visit(s)
         return bool(v.result)
 
-    def _run_loop(self, st, loop, it, target, pre_bind=None, extra_assigned=()):
+    def _run_loop(self, st, loop, it, target, pre_bind=None, extra_assigned=(), body_fn=None):
         env = self.frame.env
         assigned = self._assigned_names(st.body)
         for n_ in extra_assigned:
@@ -517,7 +537,10 @@ class Interp(ExprMixin):
         n_events = len(self.events)
         n_guards_at_entry = len(self.guards) + nk
         try:
-            self.exec_block(st.body)
+            if body_fn is not None:
+                body_fn()
+            else:
+                self.exec_block(st.body)
         finally:
             self.loops = self.loops[:-1]
             self._loop_guard_base = self._loop_guard_base[:-1]
